@@ -20,8 +20,10 @@ pub mod w_close;
 pub mod w_default;
 pub mod w_flag;
 pub mod w_forbid;
+pub mod w_freeze;
 pub mod w_halflock;
 pub mod w_instance;
+pub mod w_live;
 pub mod w_model;
 pub mod w_origin;
 pub mod w_pipe;
